@@ -222,7 +222,7 @@ class NeuralStateBase(abc.ABC):
                 raise ValueError(f"Invalid key in metadata; '{net}' cannot be a key!")
 
         data = {net: getattr(self, net).state_dict() for net in self.networks}
-        data.update(**metadata)
+        data.update(metadata)
         torch.save(data, location)
 
     def load(self, location):
